@@ -4,13 +4,17 @@ import (
 	"encoding/json"
 	"fmt"
 	"math/bits"
+	"strings"
 	"sync"
+
+	"github.com/onflow/cadence"
 
 	"github.com/onflow/cadence/interpreter"
 	"github.com/onflow/cadence/sema"
 
 	"verif/gen/tygen"
 	"verif/mc"
+	"verif/rt"
 )
 
 // C08 — subtyping is a consistent preorder across all implementations.
@@ -43,6 +47,7 @@ type c08Case struct {
 	A     string `json:"a"`
 	B     string `json:"b,omitempty"`
 	C     string `json:"c,omitempty"`
+	UseVM bool   `json:"use_vm,omitempty"`
 }
 
 type c08Rel struct {
@@ -395,9 +400,75 @@ func runC08(env *mc.Env) {
 			}
 		}
 	}
+	c08ScriptLayer(env, depth, tally)
 	env.R.Set("triples_decided", int64(n)*int64(n)*int64(n))
 	env.R.Set("pairs", int64(n)*int64(n))
 	env.R.BoundCompleted(fmt.Sprintf("all ordered pairs and triples of T(%d), %d types", depth, n))
+}
+
+// c08ScriptLayer: "run-time subtype tests on static types agree with the
+// checker's relation", observed end to end: for every ordered pair of the
+// denotable core types (the C09 target set) a script evaluates
+// `Type<A>().isSubtype(of: Type<B>())` in both engines; the answer must equal
+// sema.IsSubType(A, B).
+func c08ScriptLayer(env *mc.Env, depth int, tally *c08Tally) {
+	ts := c09Targets(env)
+	env.R.Set("script_layer_types", int64(len(ts)))
+	l := tygen.NewLedger()
+	type job struct {
+		i  int
+		vm bool
+	}
+	var jobs []job
+	for i := range ts {
+		jobs = append(jobs, job{i, false}, job{i, true})
+	}
+	mc.ParallelFor(env, len(jobs), func(j int) {
+		a, vm := ts[jobs[j].i], jobs[j].vm
+		got, errs := c08ScriptRow(l.Clone(), a, ts, vm)
+		if got == nil {
+			env.R.HarnessError("C08 script layer: row %s: %s", a.Name, errs)
+			return
+		}
+		env.R.EvalN(int64(len(ts)))
+		for k, b := range ts {
+			want := sema.IsSubType(a.Sema, b.Sema)
+			if got[k] != want {
+				sig := fmt.Sprintf("script-isSubtype-vs-checker|sub=%s|super=%s|%s", c08Class(a), c08Class(b), c09Engine(vm))
+				tally.add(sig)
+				env.R.Violation(sig, c08Case{Law: "script", Depth: depth, A: a.Name, B: b.Name, UseVM: vm},
+					fmt.Sprintf("Type<%s>().isSubtype(of: Type<%s>()) = %v, checker relation = %v", a.Source, b.Source, got[k], want))
+			}
+		}
+		env.R.ClassN("script-layer-row-agrees:"+c09Engine(vm), 1)
+	})
+}
+
+func c08ScriptRow(l *rt.Ledger, a tygen.Ty, ts []tygen.Ty, vm bool) ([]bool, string) {
+	var sb strings.Builder
+	sb.WriteString(tygen.Import())
+	fmt.Fprintf(&sb, "access(all) fun main(): [Bool] {\n  let t = %s\n  return [\n", a.TypeExpr())
+	for _, b := range ts {
+		fmt.Fprintf(&sb, "    t.isSubtype(of: %s),\n", b.TypeExpr())
+	}
+	sb.WriteString("    true]\n}\n")
+	res := rt.Run(l, rt.Tx{Source: sb.String(), Script: true, UseVM: vm})
+	if !res.OK() {
+		return nil, res.ErrString()
+	}
+	arr, ok := res.Value.(cadence.Array)
+	if !ok || len(arr.Values) != len(ts)+1 {
+		return nil, "unexpected result"
+	}
+	out := make([]bool, len(ts))
+	for i := range ts {
+		b, ok := arr.Values[i].(cadence.Bool)
+		if !ok {
+			return nil, "unexpected element"
+		}
+		out[i] = bool(b)
+	}
+	return out, ""
 }
 
 func c08Find(depth int, name string) (tygen.Ty, bool) {
@@ -430,6 +501,17 @@ func replayC08(env *mc.Env, raw json.RawMessage) (bool, string) {
 		}
 		sig, detail := c08JudgePair(a, b, c08Eval(conv, a, b))
 		return sig != "", sig + " " + detail
+	case "script":
+		b, ok := c08Find(c.Depth, c.B)
+		if !ok {
+			return false, "type not in universe: " + c.B
+		}
+		got, errs := c08ScriptRow(tygen.NewLedger(), a, []tygen.Ty{b}, c.UseVM)
+		if got == nil {
+			return false, errs
+		}
+		want := sema.IsSubType(a.Sema, b.Sema)
+		return got[0] != want, fmt.Sprintf("Type<%s>().isSubtype(of: Type<%s>()) = %v, checker = %v", a.Source, b.Source, got[0], want)
 	case "transitive":
 		b, ok1 := c08Find(c.Depth, c.B)
 		cc, ok2 := c08Find(c.Depth, c.C)
